@@ -144,6 +144,20 @@ func runC09(c *Ctx) {
 					d := p.Val.(*meta_leaseset.MetaLeaseSet).Destination()
 					checkDest("ReadMetaLeaseSet", mB, d.KeysAndCert)
 				}
+				// the same two structures with the OFFLINE_KEYS flag and an offline-signature block
+				// (transient Ed25519 key; the block's signature has the destination type's length):
+				// "offline only" signing types are still prohibited in the Destination itself
+				offB := cat(u32(4000000000), u16(7), r.Bytes(32), r.Bytes(slen))
+				ls2O := cat(w, u32(1), u16(1), u16(1), offB, []byte{0, 0, 1}, u16(4), u16(32), r.Bytes(32), []byte{2}, genLease2(r), genLease2(r), r.Bytes(64), make([]byte, 40))
+				if p := runParser(c, byName["ReadLeaseSet2"], ls2O, nil); p.OK {
+					d := p.Val.(*lease_set2.LeaseSet2).Destination()
+					checkDest("ReadLeaseSet2(offline keys)", ls2O, d.KeysAndCert)
+				}
+				mO := cat(w, u32(1), u16(1), u16(1), offB, []byte{0, 0, 2}, r.Bytes(32), []byte{3}, u32(9), []byte{1, 0, 0}, r.Bytes(32), []byte{1}, u32(9), []byte{1, 0, 0}, r.Bytes(64), make([]byte, 40))
+				if p := runParser(c, byName["ReadMetaLeaseSet"], mO, nil); p.OK {
+					d := p.Val.(*meta_leaseset.MetaLeaseSet).Destination()
+					checkDest("ReadMetaLeaseSet(offline keys)", mO, d.KeysAndCert)
+				}
 				riB := cat(w, u64e(1700000000000), []byte{0, 0, 0, 0}, r.Bytes(slen))
 				if p := runParser(c, byName["ReadRouterInfo"], riB, nil); p.OK {
 					ri := p.Val.(*router_info.RouterInfo).RouterIdentity()
@@ -182,4 +196,3 @@ func riDeniedImpl(s, cr int) bool {
 	_, err := router_identity.NewRouterIdentity(newFakeKey(kc.CryptoSize()), newFakeSPK(kc.SigningPublicKeySize()), &kc.Certificate, make([]byte, pad))
 	return err != nil
 }
-
